@@ -599,7 +599,7 @@ def oracle(c, impl):
 
 CLASS_OF = {
     # failure kind -> candidate classes in order; a class applies only if the model raised its flag for the case
-    "missing": ["UnprefixedFieldAppliedToBothTypes", "CrossTypeOrNot", "TimeNotU64Ordered"],
+    "missing": ["UnprefixedFieldAppliedToBothTypes", "CrossTypeOrNot", "TimeNotU64Ordered", "SubQueryNotComplement"],
     "pair_time": ["TimeNotU64Ordered"],
     "pair_link": ["AbsentLinkGroupedAsNull", "LinkTextAliasesInteger"],
     "pair_where": ["UnprefixedFieldAppliedToBothTypes", "CrossTypeOrNot"],
@@ -611,6 +611,9 @@ def classify(c, impl, model=None):
     if not f or model is None:
         return None
     _, _, flags = parse_model(model)
+    # the NOT-complement loss exists only on flushed zones: the class needs a FLUSH in the history
+    if "SubQueryNotComplement" in flags and ",F" not in c["line"].split()[-1] and not c["line"].split()[-1].endswith(":F"):
+        flags = flags - {"SubQueryNotComplement"}
     found = []
     for kind, _ in f:
         cls = next((k for k in CLASS_OF.get(kind, []) if k in flags), None)
